@@ -15,6 +15,7 @@ import (
 	sdkmath "cosmossdk.io/math"
 	sdk "github.com/cosmos/cosmos-sdk/types"
 	govv1beta1 "github.com/cosmos/cosmos-sdk/x/gov/types/v1beta1"
+	paramproposal "github.com/cosmos/cosmos-sdk/x/params/types/proposal"
 
 	bep3types "github.com/kava-labs/kava/x/bep3/types"
 	cdptypes "github.com/kava-labs/kava/x/cdp/types"
@@ -44,11 +45,24 @@ type c16Op struct {
 	Z      string    `json:"z,omitempty"`
 	Flag   bool      `json:"flag,omitempty"`
 	Coins  []c16Coin `json:"coins,omitempty"`
+	L      []int     `json:"l,omitempty"` // the new oracle / member list of a change of principals
 	Commit bool      `json:"commit"`
 }
 
 var c16Kinds = []string{"postprice", "issue", "redeem", "block", "unblock", "pause", "swap", "submit", "vote", "params",
 	"draw", "repay", "cdpwd", "hardwd", "savwd", "swapwd", "earnwd"}
+
+// changes of the designated principals (not messages: they are what an enacted governance proposal does)
+var c16AdminKinds = []string{"setoracles", "setowner", "setdeputy", "setmembers", "delcom"}
+
+func isAdmin(kind string) bool {
+	for _, k := range c16AdminKinds {
+		if k == kind {
+			return true
+		}
+	}
+	return false
+}
 
 var c16Handler = map[string]string{
 	"postprice": "pricefeed.PostPrice", "issue": "issuance.IssueTokens", "redeem": "issuance.RedeemTokens",
@@ -203,6 +217,137 @@ func (w *c16World) exec(ctx sdk.Context, op c16Op, signer int) error {
 		panic("unknown op kind " + op.Kind)
 	}
 	return err
+}
+
+func (w *c16World) userAddrs(l []int) []sdk.AccAddress {
+	out := make([]sdk.AccAddress, 0, len(l))
+	for _, a := range l {
+		out = append(out, w.addrs[a])
+	}
+	return out
+}
+
+// admin performs a change of the designated principals the way an enacted governance proposal
+// does: parameter changes through the x/params ParameterChangeProposal handler of the app's gov
+// router (Subspace.Update: amino JSON, the module's validator, then the store), committee
+// changes through the x/committee proposal handler of the same router.
+func (w *c16World) admin(ctx sdk.Context, op c16Op) error {
+	amino := w.tApp.LegacyAmino()
+	paramChange := func(subspace, key string, value any) error {
+		bz, err := amino.MarshalJSON(value)
+		if err != nil {
+			return err
+		}
+		content := paramproposal.NewParameterChangeProposal("change of principals", "c16",
+			[]paramproposal.ParamChange{paramproposal.NewParamChange(subspace, key, string(bz))})
+		return w.govRoute.GetRoute(paramproposal.RouterKey)(ctx, content)
+	}
+	switch op.Kind {
+	case "setoracles":
+		ms := w.tApp.GetPriceFeedKeeper().GetParams(ctx).Markets
+		for i := range ms {
+			if ms[i].MarketID == idxName(c16Markets, op.A, "") {
+				ms[i].Oracles = w.userAddrs(op.L)
+			}
+		}
+		return paramChange(pricefeedtypes.ModuleName, string(pricefeedtypes.KeyMarkets), ms)
+	case "setowner":
+		as := w.tApp.GetIssuanceKeeper().GetParams(ctx).Assets
+		for i := range as {
+			if as[i].Denom == idxName(c16IssDenoms, op.A, "") {
+				as[i].Owner = w.addrs[op.B].String()
+			}
+		}
+		return paramChange(issuancetypes.ModuleName, string(issuancetypes.KeyAssets), as)
+	case "setdeputy":
+		aps := w.tApp.GetBep3Keeper().GetParams(ctx).AssetParams
+		for i := range aps {
+			if aps[i].Denom == idxName(c16B3Denoms, op.A, "") {
+				aps[i].DeputyAddress = w.addrs[op.B]
+			}
+		}
+		return paramChange(bep3types.ModuleName, string(bep3types.KeyAssetParams), aps)
+	case "setmembers":
+		var nc committeetypes.Committee
+		members := w.userAddrs(op.L)
+		cur, found := w.tApp.GetCommitteeKeeper().GetCommittee(ctx, uint64(op.A))
+		switch c := cur.(type) {
+		case *committeetypes.MemberCommittee:
+			base := *c.BaseCommittee
+			base.Members = members
+			nc = &committeetypes.MemberCommittee{BaseCommittee: &base}
+		case *committeetypes.TokenCommittee:
+			base := *c.BaseCommittee
+			base.Members = members
+			nc = &committeetypes.TokenCommittee{BaseCommittee: &base, Quorum: c.Quorum, TallyDenom: c.TallyDenom}
+		default:
+			if found {
+				return fmt.Errorf("committee %d of unknown kind %T", op.A, cur)
+			}
+			nc = &committeetypes.MemberCommittee{BaseCommittee: &committeetypes.BaseCommittee{
+				ID: uint64(op.A), Description: fmt.Sprintf("member committee %d", op.A), Members: members,
+				VoteThreshold: dec("0.5"), ProposalDuration: 7 * 24 * time.Hour, TallyOption: committeetypes.TALLY_OPTION_FIRST_PAST_THE_POST}}
+			nc.SetPermissions([]committeetypes.Permission{&committeetypes.TextPermission{}})
+		}
+		content, err := committeetypes.NewCommitteeChangeProposal("change of members", "c16", nc)
+		if err != nil {
+			return err
+		}
+		return w.govRoute.GetRoute(committeetypes.RouterKey)(ctx, &content)
+	case "delcom":
+		content := committeetypes.NewCommitteeDeleteProposal("delete committee", "c16", uint64(op.A))
+		return w.govRoute.GetRoute(committeetypes.RouterKey)(ctx, &content)
+	}
+	panic("unknown change of principals " + op.Kind)
+}
+
+// coqAdmin renders a change of principals as a term of Model/Auth.v [admin].
+func coqAdmin(op c16Op) string {
+	switch op.Kind {
+	case "setoracles":
+		return fmt.Sprintf("SetOracles %s %s", Nat(op.A), natList(op.L))
+	case "setowner":
+		return fmt.Sprintf("SetOwner %s %s", Nat(op.A), Nat(op.B))
+	case "setdeputy":
+		return fmt.Sprintf("SetDeputy %s %s", Nat(op.A), Nat(op.B))
+	case "setmembers":
+		return fmt.Sprintf("SetMembers %s %s", Nat(op.A), natList(op.L))
+	case "delcom":
+		return fmt.Sprintf("DelCommittee %s", Nat(op.A))
+	}
+	panic("unknown change of principals " + op.Kind)
+}
+
+// othersHold: for the messages whose remaining conditions do not depend on the signer, whether
+// those conditions hold in this world (so that every designated principal must be accepted):
+// a price post needs a known market and an expiry after the block time; a text proposal needs a
+// known committee (every committee of this world may enact text proposals); a vote needs an
+// open proposal and, in a member committee, the vote type yes.
+func (w *c16World) othersHold(v *c16View, op c16Op) (holds, applicable bool) {
+	now := w.ctx.BlockTime().Unix()
+	switch op.Kind {
+	case "postprice":
+		return op.A >= 0 && op.A < len(v.markets) && bigOf(op.Y).Int64() > now, true
+	case "submit":
+		for _, c := range v.coms {
+			if c.id == op.A {
+				return true, true
+			}
+		}
+		return false, true
+	case "vote":
+		for _, p := range v.props {
+			if p.id == op.A {
+				for _, c := range v.coms {
+					if c.id == p.com {
+						return p.deadline > now && (!c.memberType || op.B == 1) && op.B >= 1 && op.B <= 3, true
+					}
+				}
+			}
+		}
+		return false, true
+	}
+	return false, false
 }
 
 // attempt executes the message on a cached context (never written) and
@@ -443,260 +588,585 @@ func amountNear(r *Rng, limit *big.Int) *big.Int {
 	return x
 }
 
-func (w *c16World) genOp(r *Rng, v *c16View, enabled []string) c16Op {
+// genKind draws one operation of the given kind in the current state; fa >= 0 pins the market /
+// asset / bep3 denom / committee the operation is about (a directed re-probe).
+func (w *c16World) genKind(r *Rng, v *c16View, kind string, fa int) (c16Op, bool) {
 	now := w.ctx.BlockTime().Unix()
 	anyUser := func() int { return r.Intn(c16NUsers) }
-	for try := 0; try < 50; try++ {
-		kind := enabled[r.Intn(len(enabled))]
-		op := c16Op{Kind: kind, Commit: r.Chance(65, 100)}
+	op := c16Op{Kind: kind, Commit: r.Chance(65, 100)}
+	switch kind {
+	case "postprice":
+		op.A = r.Intn(len(v.markets))
+		if fa >= 0 && fa < len(v.markets) {
+			op.A = fa
+		}
+		if len(v.markets[op.A]) == 0 {
+			if fa < 0 && !r.Chance(1, 4) {
+				return op, false
+			}
+			op.P = anyUser() // a market without oracles: nobody can post
+		} else {
+			op.P = v.markets[op.A][r.Intn(len(v.markets[op.A]))]
+		}
+		if fa < 0 && r.Chance(1, 25) {
+			op.A = len(v.markets) // unknown market
+		}
+		op.X = new(big.Int).Mul(big.NewInt(int64(1+r.Intn(5000))), Pow10(15)).String()
+		exp := now + int64(1+r.Intn(10000))
+		if r.Chance(1, 8) {
+			exp = now - int64(r.Intn(3)) // expired or expiring now
+		}
+		op.Y = fmt.Sprint(exp)
+	case "issue", "redeem", "block", "unblock", "pause":
+		op.A = r.Intn(len(v.assets))
+		if fa >= 0 && fa < len(v.assets) {
+			op.A = fa
+		}
+		a := v.assets[op.A]
+		op.P = a.owner
 		switch kind {
-		case "postprice":
-			op.A = r.Intn(len(v.markets))
-			if len(v.markets[op.A]) == 0 {
-				if !r.Chance(1, 4) {
-					continue
-				}
-				op.P = anyUser() // a market without oracles: nobody can post
-			} else {
-				op.P = v.markets[op.A][r.Intn(len(v.markets[op.A]))]
+		case "issue":
+			op.B = r.Intn(c16NUsers)
+			if r.Chance(1, 6) && len(a.blocked) > 0 {
+				op.B = a.blocked[r.Intn(len(a.blocked))]
 			}
-			if r.Chance(1, 25) {
-				op.A = len(v.markets) // unknown market
-			}
-			op.X = new(big.Int).Mul(big.NewInt(int64(1+r.Intn(5000))), Pow10(15)).String()
-			exp := now + int64(1+r.Intn(10000))
-			if r.Chance(1, 8) {
-				exp = now - int64(r.Intn(3)) // expired or expiring now
-			}
-			op.Y = fmt.Sprint(exp)
-		case "issue", "redeem", "block", "unblock", "pause":
-			op.A = r.Intn(len(v.assets))
-			a := v.assets[op.A]
-			op.P = a.owner
-			switch kind {
-			case "issue":
-				op.B = r.Intn(c16NUsers)
-				if r.Chance(1, 6) && len(a.blocked) > 0 {
-					op.B = a.blocked[r.Intn(len(a.blocked))]
-				}
-				if r.Chance(1, 12) {
-					op.B = c16NUsers + r.Intn(w.nacc-c16NUsers) // a module account
-				}
-				amt := big.NewInt(int64(1 + r.Intn(300)))
-				if a.rlActive && r.Chance(1, 2) {
-					amt = amountNear(r, new(big.Int).Sub(a.rlLimit, a.curSupply))
-				}
-				op.X = amt.String()
-			case "redeem":
-				op.X = amountNear(r, v.issBal[a.owner][op.A]).String()
-				if r.Chance(1, 2) {
-					op.X = fmt.Sprint(1 + r.Intn(50))
-				}
-			case "block":
-				op.B = r.Intn(c16NUsers)
-				if r.Chance(1, 10) {
-					op.B = a.owner // makes the param validator panic
-				}
-				if r.Chance(1, 12) {
-					op.B = c16NUsers + r.Intn(w.nacc-c16NUsers)
-				}
-				if !a.blockable && !r.Chance(1, 3) {
-					continue
-				}
-			case "unblock":
-				if len(a.blocked) > 0 && !r.Chance(1, 6) {
-					op.B = a.blocked[r.Intn(len(a.blocked))]
-				} else if r.Chance(1, 2) {
-					op.B = r.Intn(c16NUsers)
-				} else {
-					continue
-				}
-			case "pause":
-				op.Flag = r.Chance(1, 2)
-			}
-			if r.Chance(1, 30) {
-				op.A = len(v.assets) // unknown asset
-			}
-		case "swap":
-			op.A = r.Intn(len(v.b3dep))
-			dep := v.b3dep[op.A]
-			if r.Chance(3, 4) { // incoming: deputy -> user
-				op.P = dep
-				op.B = r.Intn(c16NUsers)
-				if op.B == dep && !r.Chance(1, 5) {
-					op.B = (dep + 1) % c16NUsers
-				}
-				if r.Chance(1, 12) {
-					op.B = c16NUsers + r.Intn(w.nacc-c16NUsers)
-				}
-				op.X = fmt.Sprint(1 + r.Intn(2_000_000))
-			} else { // outgoing: user -> deputy (open to anyone with funds)
-				op.P = r.Intn(c16NoAcc)
-				if op.P == dep {
-					op.P = (dep + 1) % c16NoAcc
-				}
-				op.B = dep
-				op.X = fmt.Sprint(1002 + r.Intn(2_000_000))
-			}
-			if r.Chance(1, 4) && op.A < len(v.b3dep) {
-				// several coins: the asset of another deputy rides along behind (or in front of) the checked coin
-				other := (op.A + 1) % len(v.b3dep)
-				cs := []c16Coin{{op.A, op.X}, {other, fmt.Sprint(1 + r.Intn(2_000_000))}}
-				if cs[0].D > cs[1].D {
-					cs[0], cs[1] = cs[1], cs[0]
-				}
-				op.Coins = cs
-				op.A, op.X = cs[0].D, cs[0].A // the coin the keeper looks at
-				if r.Chance(1, 2) {
-					op.P = v.b3dep[op.A] // sent by the deputy of the first coin
-					if op.B == op.P {
-						op.B = (op.P + 1) % c16NUsers
-					}
-				}
-			}
-			w.nonce++
-			op.Y = fmt.Sprintf("%d", w.nonce)
-		case "submit":
-			c := v.coms[r.Intn(len(v.coms))]
-			op.A = c.id
-			op.P = c.members[r.Intn(len(c.members))]
-			op.X = fmt.Sprint(c.dur)
-			if r.Chance(1, 25) {
-				op.A = 77 // unknown committee
-			}
-			w.nonce++
-			op.Y = fmt.Sprintf("%d", w.nonce)
-		case "vote":
-			if len(v.props) == 0 {
-				continue
-			}
-			p := v.props[r.Intn(len(v.props))]
-			op.A = p.id
-			var com comView
-			for _, c := range v.coms {
-				if c.id == p.com {
-					com = c
-				}
-			}
-			op.B = 1
-			if com.memberType {
-				op.P = com.members[r.Intn(len(com.members))]
-				if r.Chance(1, 10) {
-					op.B = 2 + r.Intn(2) // member committees accept only yes
-				}
-			} else {
-				op.P = anyUser()
-				op.B = 1 + r.Intn(3)
-			}
-			if r.Chance(1, 25) {
-				op.A = v.nextPid + 3 // unknown proposal
-			}
-		case "params":
-			op.P = w.gov
-			op.X = fmt.Sprint(now + int64(r.Intn(1_000_000)))
-			op.Y = new(big.Int).Mul(big.NewInt(int64(r.Intn(1000))), Pow10(15)).String()
-			op.Z = new(big.Int).Mul(big.NewInt(int64(r.Intn(1000))), Pow10(15)).String()
-			if r.Chance(1, 8) {
-				op.Y = "-" + Pow10(18).String() // refused by Params.Validate
-			}
-		case "draw", "repay":
-			if len(v.cdps) == 0 {
-				continue
-			}
-			c := v.cdps[r.Intn(len(v.cdps))]
-			op.P, op.A = c.owner, c.ctype
-			if kind == "draw" {
-				op.X = fmt.Sprint(int64(1+r.Intn(5)) * 1_000_000)
-				if r.Chance(1, 10) {
-					op.X = new(big.Int).Mul(c.coll, big.NewInt(100)).String() // breaks the collateral ratio
-				}
-			} else {
-				switch r.Pick(60, 15, 15, 10) {
-				case 0:
-					op.X = fmt.Sprint(int64(1+r.Intn(3)) * 1_000_000)
-				case 1:
-					op.X = c.princ.String() // closes the cdp
-				case 2:
-					op.X = new(big.Int).Add(c.princ, big.NewInt(int64(r.Intn(5_000_000)))).String() // over-payment, closes
-				default:
-					op.X = new(big.Int).Sub(c.princ, big.NewInt(int64(1+r.Intn(999_999)))).String() // leaves less than the debt floor
-				}
-				if bigOf(op.X).Sign() <= 0 {
-					op.X = "1000000"
-				}
-			}
-		case "cdpwd":
-			if len(v.cdps) == 0 {
-				continue
-			}
-			c := v.cdps[r.Intn(len(v.cdps))]
-			d := pickPos(r, c.deps)
-			if d < 0 {
-				continue
-			}
-			op.P, op.B, op.A = d, c.owner, c.ctype
-			if d == c.owner {
-				op.X = amountNear(r, new(big.Int).Div(c.deps[d], big.NewInt(20))).String()
-			} else {
-				op.X = amountNear(r, c.deps[d]).String()
-			}
-		case "hardwd", "savwd":
-			g := v.hard
-			if kind == "savwd" {
-				g = v.sav
-			}
-			hs := holders(g, c16NUsers)
-			if len(hs) == 0 {
-				continue
-			}
-			op.P = hs[r.Intn(len(hs))]
-			for d := range c16Denoms {
-				has := g[op.P][d].Sign() > 0
-				if (has && r.Chance(2, 3)) || (!has && r.Chance(1, 25)) {
-					lim := g[op.P][d]
-					if !has {
-						lim = big.NewInt(10)
-					}
-					op.Coins = append(op.Coins, c16Coin{d, amountNear(r, lim).String()})
-				}
-			}
-			if len(op.Coins) == 0 {
-				d := pickPos(r, g[op.P])
-				op.Coins = []c16Coin{{d, amountNear(r, g[op.P][d]).String()}}
-			}
-		case "swapwd":
-			var cands [][2]int
-			for a := 0; a < c16NUsers; a++ {
-				for p := range c16Pools {
-					if v.swapShares[a][p].Sign() > 0 {
-						cands = append(cands, [2]int{a, p})
-					}
-				}
-			}
-			if len(cands) == 0 {
-				continue
-			}
-			c := cands[r.Intn(len(cands))]
-			op.P, op.A = c[0], c[1]
-			op.X = amountNear(r, v.swapShares[c[0]][c[1]]).String()
-			op.Y, op.Z = "1", "1"
 			if r.Chance(1, 12) {
-				op.Y = v.pools[op.A][0].String() // slippage
+				op.B = c16NUsers + r.Intn(w.nacc-c16NUsers) // a module account
 			}
-		case "earnwd":
-			hs := holders(v.earn, c16NUsers)
-			if len(hs) == 0 {
-				continue
+			amt := big.NewInt(int64(1 + r.Intn(300)))
+			if a.rlActive && r.Chance(1, 2) {
+				amt = amountNear(r, new(big.Int).Sub(a.rlLimit, a.curSupply))
 			}
-			op.P = hs[r.Intn(len(hs))]
-			op.A = pickPos(r, v.earn[op.P])
-			val := v.earnVal[op.P][op.A]
-			op.X = amountNear(r, val).String()
-			if r.Chance(1, 4) && val.Sign() > 0 {
-				op.X = val.String() // the whole value: a fractional remainder of shares is removed as dust
+			op.X = amt.String()
+		case "redeem":
+			op.X = amountNear(r, v.issBal[a.owner][op.A]).String()
+			if r.Chance(1, 2) {
+				op.X = fmt.Sprint(1 + r.Intn(50))
+			}
+		case "block":
+			op.B = r.Intn(c16NUsers)
+			if r.Chance(1, 10) {
+				op.B = a.owner // makes the param validator panic
+			}
+			if r.Chance(1, 12) {
+				op.B = c16NUsers + r.Intn(w.nacc-c16NUsers)
+			}
+			if !a.blockable && !r.Chance(1, 3) {
+				return op, false
+			}
+		case "unblock":
+			if len(a.blocked) > 0 && !r.Chance(1, 6) {
+				op.B = a.blocked[r.Intn(len(a.blocked))]
+			} else if r.Chance(1, 2) {
+				op.B = r.Intn(c16NUsers)
+			} else {
+				return op, false
+			}
+		case "pause":
+			op.Flag = r.Chance(1, 2)
+		}
+		if fa < 0 && r.Chance(1, 30) {
+			op.A = len(v.assets) // unknown asset
+		}
+	case "swap":
+		op.A = r.Intn(len(v.b3dep))
+		if fa >= 0 && fa < len(v.b3dep) {
+			op.A = fa
+		}
+		dep := v.b3dep[op.A]
+		if r.Chance(3, 4) || fa >= 0 { // incoming: deputy -> user
+			op.P = dep
+			op.B = r.Intn(c16NUsers)
+			if op.B == dep && !r.Chance(1, 5) {
+				op.B = (dep + 1) % c16NUsers
+			}
+			if r.Chance(1, 12) {
+				op.B = c16NUsers + r.Intn(w.nacc-c16NUsers)
+			}
+			op.X = fmt.Sprint(1 + r.Intn(2_000_000))
+		} else { // outgoing: user -> deputy (open to anyone with funds)
+			op.P = r.Intn(c16NoAcc)
+			if op.P == dep {
+				op.P = (dep + 1) % c16NoAcc
+			}
+			op.B = dep
+			op.X = fmt.Sprint(1002 + r.Intn(2_000_000))
+		}
+		if fa < 0 && r.Chance(1, 4) && op.A < len(v.b3dep) {
+			// several coins: the asset of another deputy rides along behind (or in front of) the checked coin
+			other := (op.A + 1) % len(v.b3dep)
+			cs := []c16Coin{{op.A, op.X}, {other, fmt.Sprint(1 + r.Intn(2_000_000))}}
+			if cs[0].D > cs[1].D {
+				cs[0], cs[1] = cs[1], cs[0]
+			}
+			op.Coins = cs
+			op.A, op.X = cs[0].D, cs[0].A // the coin the keeper looks at
+			if r.Chance(1, 2) {
+				op.P = v.b3dep[op.A] // sent by the deputy of the first coin
+				if op.B == op.P {
+					op.B = (op.P + 1) % c16NUsers
+				}
 			}
 		}
-		return op
+		w.nonce++
+		op.Y = fmt.Sprintf("%d", w.nonce)
+	case "submit":
+		if len(v.coms) == 0 {
+			if fa < 0 {
+				return op, false
+			}
+			// no committee is left: a submission to the deleted one, refused for everybody
+			op.A, op.P, op.X = fa, r.Intn(c16NUsers), "0"
+			w.nonce++
+			op.Y = fmt.Sprintf("%d", w.nonce)
+			return op, true
+		}
+		c := v.coms[r.Intn(len(v.coms))]
+		if fa >= 0 {
+			found := false
+			for _, x := range v.coms {
+				if x.id == fa {
+					c, found = x, true
+				}
+			}
+			if !found {
+				// the committee was deleted: the submission is refused for everybody
+				op.A, op.P, op.X = fa, c.members[r.Intn(len(c.members))], fmt.Sprint(c.dur)
+				w.nonce++
+				op.Y = fmt.Sprintf("%d", w.nonce)
+				return op, true
+			}
+		}
+		op.A = c.id
+		op.P = c.members[r.Intn(len(c.members))]
+		op.X = fmt.Sprint(c.dur)
+		if fa < 0 && r.Chance(1, 25) {
+			op.A = 77 // unknown committee
+		}
+		w.nonce++
+		op.Y = fmt.Sprintf("%d", w.nonce)
+	case "vote":
+		if len(v.props) == 0 {
+			return op, false
+		}
+		p := v.props[r.Intn(len(v.props))]
+		if fa >= 0 {
+			var ps []propView
+			for _, x := range v.props {
+				if x.com == fa {
+					ps = append(ps, x)
+				}
+			}
+			if len(ps) == 0 {
+				return op, false
+			}
+			p = ps[r.Intn(len(ps))]
+		}
+		op.A = p.id
+		var com comView
+		for _, c := range v.coms {
+			if c.id == p.com {
+				com = c
+			}
+		}
+		op.B = 1
+		if com.memberType {
+			op.P = com.members[r.Intn(len(com.members))]
+			if r.Chance(1, 10) {
+				op.B = 2 + r.Intn(2) // member committees accept only yes
+			}
+		} else {
+			// an account that can sign: a committed vote of an address x/auth does not know makes the
+			// token tally (run when the proposal is closed) dereference a nil account
+			op.P = r.Intn(c16NoAcc)
+			op.B = 1 + r.Intn(3)
+		}
+		if fa < 0 && r.Chance(1, 25) {
+			op.A = v.nextPid + 3 // unknown proposal
+		}
+	case "params":
+		op.P = w.gov
+		op.X = fmt.Sprint(now + int64(r.Intn(1_000_000)))
+		op.Y = new(big.Int).Mul(big.NewInt(int64(r.Intn(1000))), Pow10(15)).String()
+		op.Z = new(big.Int).Mul(big.NewInt(int64(r.Intn(1000))), Pow10(15)).String()
+		if r.Chance(1, 8) {
+			op.Y = "-" + Pow10(18).String() // refused by Params.Validate
+		}
+	case "draw", "repay":
+		if len(v.cdps) == 0 {
+			return op, false
+		}
+		c := v.cdps[r.Intn(len(v.cdps))]
+		op.P, op.A = c.owner, c.ctype
+		if kind == "draw" {
+			op.X = fmt.Sprint(int64(1+r.Intn(5)) * 1_000_000)
+			if r.Chance(1, 10) {
+				op.X = new(big.Int).Mul(c.coll, big.NewInt(100)).String() // breaks the collateral ratio
+			}
+		} else {
+			switch r.Pick(60, 15, 15, 10) {
+			case 0:
+				op.X = fmt.Sprint(int64(1+r.Intn(3)) * 1_000_000)
+			case 1:
+				op.X = c.princ.String() // closes the cdp
+			case 2:
+				op.X = new(big.Int).Add(c.princ, big.NewInt(int64(r.Intn(5_000_000)))).String() // over-payment, closes
+			default:
+				op.X = new(big.Int).Sub(c.princ, big.NewInt(int64(1+r.Intn(999_999)))).String() // leaves less than the debt floor
+			}
+			if bigOf(op.X).Sign() <= 0 {
+				op.X = "1000000"
+			}
+		}
+	case "cdpwd":
+		if len(v.cdps) == 0 {
+			return op, false
+		}
+		c := v.cdps[r.Intn(len(v.cdps))]
+		d := pickPos(r, c.deps)
+		if d < 0 {
+			return op, false
+		}
+		op.P, op.B, op.A = d, c.owner, c.ctype
+		if d == c.owner {
+			op.X = amountNear(r, new(big.Int).Div(c.deps[d], big.NewInt(20))).String()
+		} else {
+			op.X = amountNear(r, c.deps[d]).String()
+		}
+	case "hardwd", "savwd":
+		g := v.hard
+		if kind == "savwd" {
+			g = v.sav
+		}
+		hs := holders(g, c16NUsers)
+		if len(hs) == 0 {
+			return op, false
+		}
+		op.P = hs[r.Intn(len(hs))]
+		for d := range c16Denoms {
+			has := g[op.P][d].Sign() > 0
+			if (has && r.Chance(2, 3)) || (!has && r.Chance(1, 25)) {
+				lim := g[op.P][d]
+				if !has {
+					lim = big.NewInt(10)
+				}
+				op.Coins = append(op.Coins, c16Coin{d, amountNear(r, lim).String()})
+			}
+		}
+		if len(op.Coins) == 0 {
+			d := pickPos(r, g[op.P])
+			op.Coins = []c16Coin{{d, amountNear(r, g[op.P][d]).String()}}
+		}
+	case "swapwd":
+		var cands [][2]int
+		for a := 0; a < c16NUsers; a++ {
+			for p := range c16Pools {
+				if v.swapShares[a][p].Sign() > 0 {
+					cands = append(cands, [2]int{a, p})
+				}
+			}
+		}
+		if len(cands) == 0 {
+			return op, false
+		}
+		c := cands[r.Intn(len(cands))]
+		op.P, op.A = c[0], c[1]
+		op.X = amountNear(r, v.swapShares[c[0]][c[1]]).String()
+		op.Y, op.Z = "1", "1"
+		if r.Chance(1, 12) {
+			op.Y = v.pools[op.A][0].String() // slippage
+		}
+	case "earnwd":
+		hs := holders(v.earn, c16NUsers)
+		if len(hs) == 0 {
+			return op, false
+		}
+		op.P = hs[r.Intn(len(hs))]
+		op.A = pickPos(r, v.earn[op.P])
+		val := v.earnVal[op.P][op.A]
+		op.X = amountNear(r, val).String()
+		if r.Chance(1, 4) && val.Sign() > 0 {
+			op.X = val.String() // the whole value: a fractional remainder of shares is removed as dust
+		}
+	default:
+		return w.genAdmin(r, v, kind, fa)
+	}
+	return op, true
+}
+
+// ---------------------------------------------------------------- changes of the designated principals
+
+func without(l []int, drop map[int]bool) []int {
+	var out []int
+	for _, x := range l {
+		if !drop[x] {
+			out = append(out, x)
+		}
+	}
+	return out
+}
+
+// newList draws a new principal list from the current one: some current
+// principals leave (the ones in `prefer` first: they have used their right
+// already), some accounts join.
+func newList(r *Rng, cur, prefer []int, minLen int) []int {
+	drop := map[int]bool{}
+	if len(prefer) > 0 && r.Chance(4, 5) {
+		drop[prefer[r.Intn(len(prefer))]] = true
+	}
+	for _, a := range cur {
+		if r.Chance(1, 3) {
+			drop[a] = true
+		}
+	}
+	if len(cur) > 0 && len(drop) == 0 && r.Chance(3, 4) {
+		drop[cur[r.Intn(len(cur))]] = true
+	}
+	l := without(cur, drop)
+	nAdd := r.Pick(30, 45, 25)
+	for k := 0; k < nAdd; k++ {
+		a := r.Intn(c16NUsers)
+		if !contains(cur, a) && !contains(l, a) {
+			l = append(l, a)
+		}
+	}
+	for len(l) < minLen {
+		a := r.Intn(c16NUsers)
+		if !contains(l, a) && (!drop[a] || r.Chance(1, 4)) {
+			l = append(l, a)
+		}
+	}
+	return l
+}
+
+func (w *c16World) genAdmin(r *Rng, v *c16View, kind string, fa int) (c16Op, bool) {
+	op := c16Op{Kind: kind, Commit: true}
+	switch kind {
+	case "setoracles":
+		op.A = r.Intn(len(v.markets))
+		if fa >= 0 && fa < len(v.markets) {
+			op.A = fa
+		}
+		cur := v.markets[op.A]
+		var posted []int
+		for _, a := range cur {
+			if _, ok := v.prices[[2]int{op.A, a}]; ok {
+				posted = append(posted, a)
+			}
+		}
+		op.L = newList(r, cur, posted, 0)
+		if len(op.L) > 0 && r.Chance(1, 20) {
+			op.L = append(op.L, op.L[0]) // a duplicated oracle: refused by the parameter validator
+		}
+	case "setowner":
+		op.A = r.Intn(len(v.assets))
+		if fa >= 0 && fa < len(v.assets) {
+			op.A = fa
+		}
+		a := v.assets[op.A]
+		op.B = r.Intn(c16NUsers)
+		if op.B == a.owner && !r.Chance(1, 8) {
+			op.B = (a.owner + 1 + r.Intn(c16NUsers-1)) % c16NUsers
+		}
+		if len(a.blocked) > 0 && r.Chance(1, 6) {
+			op.B = a.blocked[r.Intn(len(a.blocked))] // refused by the parameter validator
+		} else if contains(a.blocked, op.B) && !r.Chance(1, 4) {
+			// a blocked address as owner is refused by the parameter validator: mostly avoided
+			for k := 0; k < c16NUsers; k++ {
+				if c := (op.B + k) % c16NUsers; !contains(a.blocked, c) && c != a.owner {
+					op.B = c
+					break
+				}
+			}
+		}
+	case "setdeputy":
+		op.A = r.Intn(len(v.b3dep))
+		if fa >= 0 && fa < len(v.b3dep) {
+			op.A = fa
+		}
+		op.B = r.Intn(c16NUsers)
+		if op.B == v.b3dep[op.A] && !r.Chance(1, 8) {
+			op.B = (op.B + 1 + r.Intn(c16NUsers-1)) % c16NUsers
+		}
+	case "setmembers":
+		var cur, voted []int
+		op.A = -1
+		if fa >= 0 {
+			op.A = fa
+		} else if len(v.coms) > 0 && !r.Chance(1, 10) {
+			op.A = v.coms[r.Intn(len(v.coms))].id
+		} else {
+			op.A = 1 + r.Intn(5) // possibly an id that is free: the change creates the committee
+		}
+		for _, c := range v.coms {
+			if c.id == op.A {
+				cur = c.members
+			}
+		}
+		for _, x := range v.votes {
+			for _, p := range v.props {
+				if p.id == x.pid && p.com == op.A && contains(cur, x.voter) {
+					voted = append(voted, x.voter)
+				}
+			}
+		}
+		op.L = newList(r, cur, voted, 1)
+		switch r.Pick(92, 4, 4) {
+		case 1:
+			op.L = nil // no members: refused
+		case 2:
+			op.L = append(op.L, op.L[0]) // duplicate member: refused
+		}
+	case "delcom":
+		if len(v.coms) == 0 {
+			return op, false
+		}
+		op.A = v.coms[r.Intn(len(v.coms))].id
+		if fa >= 0 {
+			op.A = fa
+		}
+		if fa < 0 && len(v.coms) <= 1 && !r.Chance(1, 4) {
+			return op, false
+		}
+	default:
+		panic("unknown op kind " + kind)
+	}
+	return op, true
+}
+
+// scenario queues a directed sequence around one change of principals: the
+// principal-to-be-removed first uses the right (so that whatever the keepers
+// remember about it is in place), the list changes, and the privileged
+// messages of the module are probed again with every signer.
+func (w *c16World) scenario(r *Rng, v *c16View) {
+	q := func(kind string, a, commit int) { w.queue = append(w.queue, c16Queued{kind, a, commit}) }
+	switch r.Pick(30, 30, 15, 10, 15) {
+	case 0: // oracle rotation
+		m := r.Intn(len(v.markets))
+		for k := 0; k < len(v.markets) && len(v.markets[m]) == 0; k++ {
+			m = (m + 1) % len(v.markets)
+		}
+		q("postprice", m, 1)
+		if r.Chance(1, 2) {
+			q("postprice", m, 1)
+		}
+		q("setoracles", m, 1)
+		q("postprice", m, -1)
+		if r.Chance(1, 2) {
+			q("postprice", m, -1)
+		}
+	case 1: // committee member rotation
+		if len(v.coms) == 0 {
+			return
+		}
+		c := v.coms[r.Intn(len(v.coms))].id
+		q("submit", c, 1)
+		q("vote", c, 1)
+		q("setmembers", c, 1)
+		q("submit", c, 1)
+		q("vote", c, -1)
+		if r.Chance(1, 2) {
+			q("submit", c, -1)
+		}
+	case 2: // asset owner hand-over
+		d := r.Intn(len(v.assets))
+		kinds := []string{"issue", "redeem", "block", "unblock", "pause"}
+		q(kinds[r.Intn(len(kinds))], d, -1)
+		q("setowner", d, 1)
+		q(kinds[r.Intn(len(kinds))], d, -1)
+		q(kinds[r.Intn(len(kinds))], d, -1)
+	case 3: // deputy hand-over
+		d := r.Intn(len(v.b3dep))
+		q("swap", d, 1)
+		q("setdeputy", d, 1)
+		q("swap", d, -1)
+		q("swap", d, -1)
+	case 4: // committee deleted, then created again under the same id
+		if len(v.coms) == 0 {
+			return
+		}
+		c := v.coms[r.Intn(len(v.coms))].id
+		q("submit", c, 1)
+		q("delcom", c, 1)
+		q("submit", c, 0)
+		q("setmembers", c, 1)
+		q("submit", c, 1)
+		q("vote", c, -1)
+	}
+}
+
+// reprobe queues, after a change of principals drawn outside a scenario, one
+// probe of a privileged message the changed list guards.
+func (w *c16World) reprobe(r *Rng, op c16Op) {
+	if len(w.queue) > 0 {
+		return
+	}
+	var kind string
+	switch op.Kind {
+	case "setoracles":
+		kind = "postprice"
+	case "setowner":
+		kind = []string{"issue", "redeem", "block", "unblock", "pause"}[r.Intn(5)]
+	case "setdeputy":
+		kind = "swap"
+	case "setmembers", "delcom":
+		kind = "submit"
+	}
+	w.queue = append(w.queue, c16Queued{kind, op.A, -1})
+}
+
+func kindEnabled(enabled []string, k string) bool {
+	for _, e := range enabled {
+		if e == k {
+			return true
+		}
+	}
+	return false
+}
+
+func (w *c16World) genOp(r *Rng, v *c16View, enabled []string) c16Op {
+	now := w.ctx.BlockTime().Unix()
+	for try := 0; try < 60; try++ {
+		if len(w.queue) > 0 {
+			qd := w.queue[0]
+			w.queue = w.queue[1:]
+			if !kindEnabled(enabled, qd.kind) {
+				continue
+			}
+			op, ok := w.genKind(r, v, qd.kind, qd.a)
+			if !ok {
+				continue
+			}
+			if qd.commit >= 0 {
+				op.Commit = qd.commit == 1
+			}
+			if isAdmin(op.Kind) {
+				op.Commit = true
+			}
+			return op
+		}
+		switch r.Pick(84, 9, 7) {
+		case 1:
+			w.scenario(r, v)
+			continue
+		case 2:
+			kind := c16AdminKinds[r.Pick(30, 20, 15, 25, 10)]
+			if !kindEnabled(enabled, kind) {
+				continue
+			}
+			if op, ok := w.genKind(r, v, kind, -1); ok {
+				w.reprobe(r, op)
+				return op
+			}
+			continue
+		}
+		kind := enabled[r.Intn(len(enabled))]
+		if isAdmin(kind) {
+			continue
+		}
+		if op, ok := w.genKind(r, v, kind, -1); ok {
+			return op
+		}
 	}
 	// always possible
 	return c16Op{Kind: "params", P: w.gov, X: fmt.Sprint(now), Y: "0", Z: "0", Commit: false}
